@@ -1,5 +1,748 @@
-//! Emitter for engines B and D (filled in later).
+//! Emitter for engine B: samples definitions over the `vtypes` palette (typed entry points,
+//! `HostTypeResolver`), writes the untouched `generate()` output of each (`mK.rs`), a generated
+//! driver (`dK.rs`) implementing `drvlib::Drv`, and the crate around them.
+
+use std::collections::BTreeMap;
+use std::fmt::Write as _;
+use std::mem::MaybeUninit;
+
+use truc::generator::generate;
+use truc::record::definition::{
+    builder::native::{variant as nvariant, DatumDefinitionOverride, NativeRecordDefinitionBuilder},
+    DatumId, NativeDatumDetails, RecordDefinition,
+};
+use truc::record::type_resolver::HostTypeResolver;
+use vtypes::Rng;
+
+use crate::hist::{Strat, STRATS};
+use crate::monitors::{config_for, FRAGSETS};
+use crate::sut::id_of;
 use crate::Args;
-pub fn mode(_args: &Args) {
-    unimplemented!()
+
+#[derive(Clone, Copy)]
+pub struct Pal {
+    pub expr: &'static str,
+    pub copy: bool,
+    pub droppable: bool,
+    pub serde: bool,
+    pub zst_drop: bool,
+    pub may_stay_unwritten: bool,
+    pub tracked: usize,
+}
+
+const fn pal(expr: &'static str, copy: bool, droppable: bool, serde: bool, tracked: usize) -> Pal {
+    Pal {
+        expr,
+        copy,
+        droppable,
+        serde,
+        zst_drop: false,
+        may_stay_unwritten: false,
+        tracked,
+    }
+}
+
+pub const PALETTE: &[Pal] = &[
+    pal("u8", true, false, true, 0),                     // 0
+    pal("u16", true, false, true, 0),                    // 1
+    pal("u32", true, false, true, 0),                    // 2
+    pal("u64", true, false, true, 0),                    // 3
+    pal("u128", true, false, true, 0),                   // 4
+    pal("[u8; 3]", true, false, true, 0),                // 5
+    pal("[u16; 3]", true, false, true, 0),               // 6
+    pal("[u32; 3]", true, false, true, 0),               // 7
+    pal("[u64; 3]", true, false, true, 0),               // 8
+    pal("f64", true, false, true, 0),                    // 9
+    pal("char", true, false, true, 0),                   // 10
+    pal("bool", true, false, true, 0),                   // 11
+    pal("vtypes::A16", true, false, true, 0),            // 12
+    pal("vtypes::A32", true, false, true, 0),            // 13
+    Pal { expr: "std::mem::MaybeUninit<u64>", copy: true, droppable: false, serde: false, zst_drop: false, may_stay_unwritten: true, tracked: 0 }, // 14
+    pal("String", false, true, true, 0),                 // 15
+    pal("Vec<u32>", false, true, true, 0),               // 16
+    pal("Box<str>", false, true, true, 0),               // 17
+    pal("Option<Box<u64>>", false, true, true, 0),       // 18
+    pal("vtypes::Tracked", false, true, true, 1),        // 19
+    pal("[vtypes::Tracked; 2]", false, true, true, 2),   // 20
+    pal("vtypes::TrackedBig", false, true, true, 1),     // 21
+    pal("vtypes::Tracked12", false, true, true, 1),      // 22
+    pal("()", true, false, true, 0),                     // 23
+    pal("[u64; 0]", true, false, true, 0),               // 24
+    Pal { expr: "vtypes::ZstDrop", copy: false, droppable: true, serde: true, zst_drop: true, may_stay_unwritten: false, tracked: 0 }, // 25
+    pal("vtypes::S12", true, false, true, 0),            // 26
+    pal("vtypes::S6", true, false, true, 0),             // 27
+    pal("[u8; 5]", true, false, true, 0),                // 28
+    pal("[u8; 7]", true, false, true, 0),                // 29
+    pal("Option<u32>", true, false, true, 0),            // 30
+];
+
+type Builder = NativeRecordDefinitionBuilder<HostTypeResolver>;
+
+fn add_t<T>(b: &mut Builder, name: &str) -> Result<DatumId, String> {
+    b.add_datum::<T, _>(name)
+}
+
+fn add_u<T: Copy>(b: &mut Builder, name: &str) -> Result<DatumId, String> {
+    b.add_datum_allow_uninit::<T, _>(name)
+}
+
+fn add_pal(b: &mut Builder, p: usize, uninit: bool, name: &str) -> Result<DatumId, String> {
+    use vtypes::*;
+    if p == 14 {
+        // `core::mem::maybe_uninit` is a private module: the recorded name would not be nameable
+        return b.add_datum_override::<MaybeUninit<u64>, _>(
+            name,
+            DatumDefinitionOverride {
+                type_name: Some("std::mem::MaybeUninit<u64>".to_owned()),
+                size: None,
+                align: None,
+                allow_uninit: Some(uninit),
+            },
+        );
+    }
+    if uninit {
+        match p {
+            0 => add_u::<u8>(b, name),
+            1 => add_u::<u16>(b, name),
+            2 => add_u::<u32>(b, name),
+            3 => add_u::<u64>(b, name),
+            4 => add_u::<u128>(b, name),
+            5 => add_u::<[u8; 3]>(b, name),
+            6 => add_u::<[u16; 3]>(b, name),
+            7 => add_u::<[u32; 3]>(b, name),
+            8 => add_u::<[u64; 3]>(b, name),
+            9 => add_u::<f64>(b, name),
+            10 => add_u::<char>(b, name),
+            11 => add_u::<bool>(b, name),
+            12 => add_u::<A16>(b, name),
+            13 => add_u::<A32>(b, name),
+            23 => add_u::<()>(b, name),
+            24 => add_u::<[u64; 0]>(b, name),
+            26 => add_u::<S12>(b, name),
+            27 => add_u::<S6>(b, name),
+            28 => add_u::<[u8; 5]>(b, name),
+            29 => add_u::<[u8; 7]>(b, name),
+            30 => add_u::<Option<u32>>(b, name),
+            _ => panic!("palette type {} is not Copy", p),
+        }
+    } else {
+        match p {
+            0 => add_t::<u8>(b, name),
+            1 => add_t::<u16>(b, name),
+            2 => add_t::<u32>(b, name),
+            3 => add_t::<u64>(b, name),
+            4 => add_t::<u128>(b, name),
+            5 => add_t::<[u8; 3]>(b, name),
+            6 => add_t::<[u16; 3]>(b, name),
+            7 => add_t::<[u32; 3]>(b, name),
+            8 => add_t::<[u64; 3]>(b, name),
+            9 => add_t::<f64>(b, name),
+            10 => add_t::<char>(b, name),
+            11 => add_t::<bool>(b, name),
+            12 => add_t::<A16>(b, name),
+            13 => add_t::<A32>(b, name),
+            15 => add_t::<String>(b, name),
+            16 => add_t::<Vec<u32>>(b, name),
+            17 => add_t::<Box<str>>(b, name),
+            18 => add_t::<Option<Box<u64>>>(b, name),
+            19 => add_t::<Tracked>(b, name),
+            20 => add_t::<[Tracked; 2]>(b, name),
+            21 => add_t::<TrackedBig>(b, name),
+            22 => add_t::<Tracked12>(b, name),
+            23 => add_t::<()>(b, name),
+            24 => add_t::<[u64; 0]>(b, name),
+            25 => add_t::<ZstDrop>(b, name),
+            26 => add_t::<S12>(b, name),
+            27 => add_t::<S6>(b, name),
+            28 => add_t::<[u8; 5]>(b, name),
+            29 => add_t::<[u8; 7]>(b, name),
+            30 => add_t::<Option<u32>>(b, name),
+            _ => panic!("unknown palette type {}", p),
+        }
+    }
+}
+
+#[derive(Clone, Debug)]
+pub enum GReq {
+    Add { pal: usize, uninit: bool, name: String },
+    /// datum added and removed again before the close, with a type name that cannot be named
+    Orphan { name: String },
+    Remove { k: usize },
+    Close { strat: Strat },
+}
+
+#[derive(Clone, Debug)]
+pub struct GSpec {
+    pub label: String,
+    pub reqs: Vec<GReq>,
+    pub fragset: usize,
+}
+
+impl GSpec {
+    pub fn text(&self) -> String {
+        let mut s = String::new();
+        for r in &self.reqs {
+            match r {
+                GReq::Add { pal, uninit, name } => {
+                    let _ = write!(s, "add {}: {}{}; ", name, PALETTE[*pal].expr, if *uninit { " (may stay uninit)" } else { "" });
+                }
+                GReq::Orphan { name } => {
+                    let _ = write!(s, "add+remove {} (orphan); ", name);
+                }
+                GReq::Remove { k } => {
+                    let _ = write!(s, "rm #{}; ", k);
+                }
+                GReq::Close { strat } => {
+                    let _ = write!(s, "close[{}]; ", strat.tag());
+                }
+            }
+        }
+        s
+    }
+}
+
+fn a(pal: usize, name: &str) -> GReq {
+    GReq::Add { pal, uninit: false, name: name.to_owned() }
+}
+fn u(pal: usize, name: &str) -> GReq {
+    GReq::Add { pal, uninit: true, name: name.to_owned() }
+}
+fn rm(k: usize) -> GReq {
+    GReq::Remove { k }
+}
+fn cl(strat: Strat) -> GReq {
+    GReq::Close { strat }
+}
+fn orphan(name: &str) -> GReq {
+    GReq::Orphan { name: name.to_owned() }
+}
+
+/// Shape-directed definitions (every run includes them).
+pub fn directed_specs() -> Vec<GSpec> {
+    use Strat::*;
+    let mut out = Vec::new();
+    let mut push = |label: &str, fragset: usize, reqs: Vec<GReq>| {
+        out.push(GSpec { label: label.to_owned(), reqs, fragset });
+    };
+    // zero-size droppable value through its whole life
+    push("zst-drop-lifecycle", 3, vec![a(3, "id"), a(15, "label"), cl(Simple), a(25, "permit"), cl(Simple), rm(2), a(1, "tail"), cl(Simple)]);
+    // zero-size data sharing an offset with a neighbour, then more data
+    push("zst-shares-offset", 3, vec![a(0, "a"), a(2, "b"), cl(Simple), a(23, "z"), a(24, "m"), a(25, "p"), cl(Simple), a(2, "c"), a(19, "t"), cl(Simple), rm(2), rm(3), rm(4), cl(Basic)]);
+    // removal-only steps down to an empty variant, then data again
+    push("removal-only-to-empty", 3, vec![a(15, "s"), a(19, "t"), a(2, "n"), a(21, "big"), cl(Simple), rm(2), rm(3), cl(Simple), rm(0), rm(1), cl(Simple), a(20, "pair"), u(1, "w"), cl(Simple)]);
+    // empty first variant
+    push("empty-first", 1, vec![cl(Simple), a(19, "t"), u(3, "x"), cl(Simple), a(17, "bs"), cl(Simple)]);
+    // only may-be-uninit fields
+    push("uninit-only", 1, vec![u(2, "x"), u(0, "y"), u(14, "mu"), u(13, "big"), cl(Simple), rm(0), u(1, "z"), u(14, "mu2"), cl(Simple)]);
+    // removed and added fields reuse the same bytes
+    push("byte-reuse", 3, vec![a(15, "s"), a(19, "t"), a(3, "c"), cl(Simple), rm(1), a(16, "v"), cl(Simple), rm(3), rm(0), a(21, "big"), a(22, "odd"), cl(Simple), rm(4), a(20, "pair"), cl(Simple)]);
+    // mandatory fields carried over into a variant built directly with new_uninit
+    push("carried-mandatory", 3, vec![a(19, "key"), u(2, "x"), cl(Simple), u(1, "y"), cl(Simple), a(15, "s"), u(3, "z"), cl(Simple)]);
+    // optional values at the end of the declaration order
+    push("trailing-options", 3, vec![a(2, "n"), a(15, "s"), a(30, "o1"), a(18, "o2"), cl(Simple), a(30, "o3"), cl(Simple)]);
+    // plain data declared before may-be-uninit data
+    push("plain-before-uninit", 3, vec![a(15, "s"), u(2, "x"), a(19, "t"), u(1, "y"), cl(Simple), a(22, "q"), u(0, "z"), cl(Simple)]);
+    // only the most recently declared data are removed
+    push("remove-tail", 3, vec![a(19, "a"), a(15, "b"), a(21, "c"), a(17, "d"), cl(Simple), rm(2), rm(3), cl(Simple), rm(0), rm(1), cl(Simple)]);
+    // over-aligned and odd shapes
+    push("over-aligned", 3, vec![a(0, "b"), a(13, "wide"), a(24, "m"), a(5, "tri"), cl(Simple), rm(1), a(12, "w16"), a(29, "sept"), a(26, "s12"), cl(Simple), a(27, "s6"), a(4, "huge"), cl(Basic)]);
+    // retained non-Copy data, then a variant adding only Copy data, then a removal-only one
+    push("copy-only-additions", 3, vec![a(15, "s"), a(19, "t"), cl(Simple), u(2, "n"), a(9, "f"), cl(Simple), rm(0), cl(Simple)]);
+    // many fields
+    let mut reqs = Vec::new();
+    for i in 0..16 {
+        let p = [0, 19, 2, 15, 5, 22, 3, 25, 1, 21, 12, 17, 23, 20, 9, 16][i];
+        reqs.push(a(p, &format!("m{}", i)));
+    }
+    reqs.push(cl(Simple));
+    for k in [1, 4, 7, 9, 13] {
+        reqs.push(rm(k));
+    }
+    reqs.push(a(19, "n0"));
+    reqs.push(u(0, "n1"));
+    reqs.push(cl(Simple));
+    push("many-fields", 3, reqs);
+    // orphans with a type that cannot be named, every strategy
+    push("orphans", 3, vec![orphan("ghost0"), a(19, "t"), cl(Append), orphan("ghost1"), a(2, "n"), cl(AppendRev), rm(1), orphan("ghost2"), cl(Basic), a(15, "s"), cl(Simple)]);
+    // default fragments only, MaybeUninit that stays unwritten across conversions
+    push("maybe-uninit-carried", 0, vec![u(14, "mu"), a(19, "t"), cl(Simple), u(2, "x"), cl(Simple), rm(0), a(16, "v"), cl(Simple)]);
+    // serde only
+    push("serde-only", 2, vec![a(19, "t"), a(11, "flag"), a(10, "ch"), a(4, "huge"), a(25, "p"), a(23, "unit"), cl(Simple), rm(1), a(8, "tri"), cl(Simple)]);
+    out
+}
+
+/// Seeded definition sampler.
+pub fn random_spec(rng: &mut Rng, index: usize) -> GSpec {
+    let fragset = index % 4;
+    let serde = fragset & 2 != 0;
+    let nvariants = rng.range(1, 5);
+    let uniform = if rng.chance(2, 3) { Some(Strat::Simple) } else if rng.chance(1, 2) { Some(*rng.pick(&STRATS)) } else { None };
+    let mut reqs = Vec::new();
+    let mut live: Vec<(usize, String)> = Vec::new(); // (k, name)
+    let mut issued = 0usize;
+    let mut next_name = 0usize;
+    let mut free_names: Vec<String> = Vec::new();
+    // type pools
+    let droppable: Vec<usize> = vec![15, 16, 17, 18, 19, 19, 19, 20, 21, 22, 25];
+    let plain: Vec<usize> = vec![0, 1, 2, 3, 4, 5, 6, 7, 8, 9, 10, 11, 12, 13, 23, 24, 26, 27, 28, 29, 30];
+    for v in 0..nvariants {
+        // removals
+        let mut removed_now = Vec::new();
+        let rm_num = *rng.pick(&[0usize, 2, 4, 7]);
+        for (k, name) in live.clone() {
+            if rng.below(10) < rm_num {
+                reqs.push(GReq::Remove { k });
+                removed_now.push(name.clone());
+                live.retain(|(kk, _)| *kk != k);
+            }
+        }
+        let room = 10usize.saturating_sub(live.len());
+        let nadds = if v == 0 { rng.range(1, 5) } else { rng.range(0, 4) }.min(room);
+        for _ in 0..nadds {
+            let is_drop = rng.chance(1, 2);
+            let mut p = if is_drop { *rng.pick(&droppable) } else { *rng.pick(&plain) };
+            let mut uninit = !is_drop && rng.chance(1, 2);
+            if !serde && !is_drop && rng.chance(1, 8) {
+                p = 14;
+                uninit = true;
+            }
+            // names: mostly fresh, sometimes one that an earlier variant used
+            let name = if !free_names.is_empty() && rng.chance(1, 4) {
+                let i = rng.below(free_names.len());
+                free_names.remove(i)
+            } else {
+                next_name += 1;
+                format!("f{}", next_name - 1)
+            };
+            reqs.push(GReq::Add { pal: p, uninit, name: name.clone() });
+            live.push((issued, name));
+            issued += 1;
+            if rng.chance(1, 12) {
+                reqs.push(GReq::Orphan { name: format!("ghost{}", issued) });
+                issued += 1;
+            }
+        }
+        if v > 0 && reqs.last().map_or(true, |r| matches!(r, GReq::Close { .. })) {
+            // nothing changed: a close would create no variant
+            continue;
+        }
+        free_names.extend(removed_now);
+        reqs.push(GReq::Close { strat: uniform.unwrap_or_else(|| *rng.pick(&STRATS)) });
+    }
+    GSpec { label: format!("random-{}", index), reqs, fragset }
+}
+
+pub struct Built {
+    pub def: RecordDefinition<NativeDatumDetails>,
+    /// datum id -> palette index
+    pub pal_of: BTreeMap<usize, usize>,
+}
+
+pub fn build_spec(spec: &GSpec) -> Result<Built, String> {
+    let mut b: Builder = NativeRecordDefinitionBuilder::new(HostTypeResolver);
+    let mut issued: Vec<DatumId> = Vec::new();
+    let mut pal_of = BTreeMap::new();
+    for r in &spec.reqs {
+        match r {
+            GReq::Add { pal, uninit, name } => {
+                let id = add_pal(&mut b, *pal, *uninit, name)?;
+                pal_of.insert(id_of(id), *pal);
+                issued.push(id);
+            }
+            GReq::Orphan { name } => {
+                let id = b.add_datum_override::<(), _>(
+                    name.as_str(),
+                    DatumDefinitionOverride {
+                        type_name: Some("not::nameable::Anywhere".to_owned()),
+                        size: Some(12),
+                        align: Some(4),
+                        allow_uninit: None,
+                    },
+                )?;
+                issued.push(id);
+                b.remove_datum(id)?;
+            }
+            GReq::Remove { k } => b.remove_datum(issued[*k])?,
+            GReq::Close { strat } => {
+                match strat {
+                    Strat::Simple => b.close_record_variant_with(nvariant::simple),
+                    Strat::Basic => b.close_record_variant_with(nvariant::basic),
+                    Strat::Append => b.close_record_variant_with(nvariant::append_data),
+                    Strat::AppendRev => b.close_record_variant_with(nvariant::append_data_reverse),
+                };
+            }
+        }
+    }
+    Ok(Built { def: b.build(), pal_of })
+}
+
+struct FieldInfo {
+    datum_id: usize,
+    name: String,
+    pal: usize,
+    offset: usize,
+    size: usize,
+    align: usize,
+    uninit: bool,
+}
+
+fn variant_fields(built: &Built) -> Vec<Vec<FieldInfo>> {
+    built
+        .def
+        .variants()
+        .map(|v| {
+            v.data_sorted()
+                .map(|d| {
+                    let dd = &built.def[d];
+                    FieldInfo {
+                        datum_id: id_of(d),
+                        name: dd.name().to_owned(),
+                        pal: built.pal_of[&id_of(d)],
+                        offset: dd.details().offset(),
+                        size: dd.details().size(),
+                        align: dd.details().type_align(),
+                        uninit: dd.details().allow_uninit(),
+                    }
+                })
+                .collect()
+        })
+        .collect()
+}
+
+fn mk(ty: &str, idx: &str) -> String {
+    format!("<{} as Probe>::make({})", ty, idx)
+}
+
+/// Text of the driver of module `k`.
+pub fn driver_text(k: usize, spec: &GSpec, built: &Built) -> String {
+    let vf = variant_fields(built);
+    let nv = vf.len();
+    let has_clone = spec.fragset & 1 != 0;
+    let has_serde = spec.fragset & 2 != 0;
+    let mut s = String::new();
+    let w = &mut s;
+    let _ = writeln!(w, "// driver of module m{} ({}), fragments: {}", k, spec.label, FRAGSETS[spec.fragset]);
+    let _ = writeln!(w, "#![allow(unused_variables, unused_mut, unused_imports, dead_code, unreachable_patterns, clippy::all)]");
+    let _ = writeln!(w, "use drvlib::{{obs, skipped, Drv, FieldMeta, FieldObs, Meta, Op, OpOut, VariantMeta}};");
+    let _ = writeln!(w, "use vtypes::Probe;");
+    let _ = writeln!(w, "use crate::m{}::*;", k);
+    let _ = writeln!(w, "use std::panic::{{catch_unwind, AssertUnwindSafe}};");
+    // Rec enum
+    let _ = writeln!(w, "pub enum Rec<const CAP: usize> {{ Empty,");
+    for v in 0..nv {
+        let _ = writeln!(w, "    V{}(CappedRecord{}<CAP>),", v, v);
+    }
+    let _ = writeln!(w, "}}");
+    let _ = writeln!(w, "#[repr(C)] pub struct SlotC<const CAP: usize> {{ hdr: u32, rec: Rec<CAP> }}");
+    let _ = writeln!(w, "pub struct State<const CAP: usize> {{ stack0: Rec<CAP>, stack1: Rec<CAP>, boxed: [Box<Rec<CAP>>; 2], vec: Vec<Rec<CAP>>, slotc: [SlotC<CAP>; 2] }}");
+    let _ = writeln!(
+        w,
+        "impl<const CAP: usize> State<CAP> {{
+    pub fn new() -> Self {{ State {{ stack0: Rec::Empty, stack1: Rec::Empty, boxed: [Box::new(Rec::Empty), Box::new(Rec::Empty)], vec: vec![Rec::Empty, Rec::Empty, Rec::Empty], slotc: [SlotC {{ hdr: 1, rec: Rec::Empty }}, SlotC {{ hdr: 2, rec: Rec::Empty }}] }} }}
+    fn slot_mut(&mut self, i: usize) -> &mut Rec<CAP> {{ match i {{ 0 => &mut self.stack0, 1 => &mut self.stack1, 2 | 3 => &mut *self.boxed[i - 2], 4 | 5 | 6 => &mut self.vec[i - 4], _ => &mut self.slotc[(i - 7) % 2].rec }} }}
+    fn slot_ref(&self, i: usize) -> &Rec<CAP> {{ match i {{ 0 => &self.stack0, 1 => &self.stack1, 2 | 3 => &*self.boxed[i - 2], 4 | 5 | 6 => &self.vec[i - 4], _ => &self.slotc[(i - 7) % 2].rec }} }}
+    fn take(&mut self, i: usize) -> Rec<CAP> {{ std::mem::replace(self.slot_mut(i), Rec::Empty) }}
+}}"
+    );
+    // per-variant functions
+    for v in 0..nv {
+        let f = &vf[v];
+        let all = f.iter().enumerate().map(|(i, x)| format!("{}: {}", x.name, mk(PALETTE[x.pal].expr, &format!("ids[{}]", i)))).collect::<Vec<_>>().join(", ");
+        let mandatory = f.iter().enumerate().filter(|(_, x)| !x.uninit).map(|(i, x)| format!("{}: {}", x.name, mk(PALETTE[x.pal].expr, &format!("ids[{}]", i)))).collect::<Vec<_>>().join(", ");
+        let _ = writeln!(w, "fn new_{v}<const CAP: usize>(ids: &[u64]) -> CappedRecord{v}<CAP> {{ CappedRecord{v}::new(UnpackedRecord{v} {{ {all} }}) }}");
+        let _ = writeln!(w, "fn new_uninit_{v}<const CAP: usize>(ids: &[u64]) -> CappedRecord{v}<CAP> {{ CappedRecord{v}::new_uninit(UnpackedUninitRecord{v} {{ {mandatory} }}) }}");
+        let _ = writeln!(w, "fn from_unpacked_{v}<const CAP: usize>(ids: &[u64]) -> CappedRecord{v}<CAP> {{ CappedRecord{v}::from(UnpackedRecord{v} {{ {all} }}) }}");
+        let _ = writeln!(w, "fn from_unpacked_uninit_{v}<const CAP: usize>(ids: &[u64]) -> CappedRecord{v}<CAP> {{ CappedRecord{v}::from(UnpackedUninitRecord{v} {{ {mandatory} }}) }}");
+        // read_all
+        let _ = writeln!(w, "fn read_all_{v}<const CAP: usize>(r: &CappedRecord{v}<CAP>, mask: u64) -> Vec<FieldObs> {{ vec![");
+        for (i, x) in f.iter().enumerate() {
+            let _ = writeln!(w, "    if mask & (1 << {i}) != 0 {{ obs(r.{}()) }} else {{ skipped() }},", x.name);
+        }
+        let _ = writeln!(w, "] }}");
+        // write
+        let _ = writeln!(w, "fn write_{v}<const CAP: usize>(r: &mut CappedRecord{v}<CAP>, field: usize, id: u64) {{ match field {{");
+        for (i, x) in f.iter().enumerate() {
+            let _ = writeln!(w, "    {i} => {{ *r.{}_mut() = {}; }}", x.name, mk(PALETTE[x.pal].expr, "id"));
+        }
+        let _ = writeln!(w, "    _ => panic!(\"no such field\") }} }}");
+        // unpack
+        let _ = writeln!(w, "fn unpack_{v}<const CAP: usize>(r: CappedRecord{v}<CAP>, mask: u64) -> Vec<FieldObs> {{ let u = r.unpack(); vec![");
+        for (i, x) in f.iter().enumerate() {
+            let _ = writeln!(w, "    if mask & (1 << {i}) != 0 {{ obs(&u.{}) }} else {{ skipped() }},", x.name);
+        }
+        let _ = writeln!(w, "] }}");
+        // conversion from the previous variant
+        if v > 0 {
+            let prev = &vf[v - 1];
+            let minus: Vec<&FieldInfo> = prev.iter().filter(|p| !f.iter().any(|x| x.datum_id == p.datum_id)).collect();
+            let plus: Vec<&FieldInfo> = f.iter().filter(|x| !prev.iter().any(|p| p.datum_id == x.datum_id)).collect();
+            let plus_all = plus.iter().enumerate().map(|(i, x)| format!("{}: {}", x.name, mk(PALETTE[x.pal].expr, &format!("ids[{}]", i)))).collect::<Vec<_>>().join(", ");
+            let plus_mand = plus.iter().enumerate().filter(|(_, x)| !x.uninit).map(|(i, x)| format!("{}: {}", x.name, mk(PALETTE[x.pal].expr, &format!("ids[{}]", i)))).collect::<Vec<_>>().join(", ");
+            let destructure = std::iter::once("record".to_owned()).chain(minus.iter().map(|m| m.name.clone())).collect::<Vec<_>>().join(", ");
+            let returned = minus.iter().enumerate().map(|(i, m)| format!("if mask & (1 << {i}) != 0 {{ obs(&{}) }} else {{ skipped() }}", m.name)).collect::<Vec<_>>().join(", ");
+            let p = v - 1;
+            let _ = writeln!(
+                w,
+                "fn convert_{v}<const CAP: usize>(r: CappedRecord{p}<CAP>, form: u8, ids: &[u64], mask: u64) -> (CappedRecord{v}<CAP>, Vec<FieldObs>) {{ match form {{
+    0 => (CappedRecord{v}::from((r, UnpackedRecordIn{v} {{ {plus_all} }})), Vec::new()),
+    1 => (CappedRecord{v}::from((r, UnpackedUninitRecordIn{v} {{ {plus_mand} }})), Vec::new()),
+    2 => {{ let Record{v}AndUnpackedOut {{ {destructure} }} = Record{v}AndUnpackedOut::from((r, UnpackedRecordIn{v} {{ {plus_all} }})); let o = vec![{returned}]; (record, o) }}
+    _ => {{ let Record{v}AndUnpackedOut {{ {destructure} }} = Record{v}AndUnpackedOut::from((r, UnpackedUninitRecordIn{v} {{ {plus_mand} }})); let o = vec![{returned}]; (record, o) }}
+}} }}"
+            );
+            // vector of records converted in place (form 0)
+            let plus_row = plus.iter().enumerate().map(|(i, x)| format!("{}: {}", x.name, mk(PALETTE[x.pal].expr, &format!("plus_rows[i][{}]", i)))).collect::<Vec<_>>().join(", ");
+            let _ = writeln!(
+                w,
+                "fn vec_convert_{p}<const CAP: usize>(rows: &[Vec<u64>], plus_rows: &[Vec<u64>], keep: u64, spare: usize) -> OpOut {{
+    let mut v: Vec<CappedRecord{p}<CAP>> = Vec::with_capacity(rows.len() + spare);
+    for r in rows {{ v.push(new_{p}::<CAP>(r)); }}
+    let p0 = v.as_ptr() as usize; let c0 = v.capacity();
+    let idx = std::sync::atomic::AtomicUsize::new(0);
+    let out = truc_runtime::convert::convert_vec_in_place::<CappedRecord{p}<CAP>, CappedRecord{v}<CAP>, _>(v, |rec, _prev| {{
+        let i = idx.fetch_add(1, std::sync::atomic::Ordering::Relaxed);
+        if keep & (1 << i) != 0 {{ truc_runtime::convert::VecElementConversionResult::Converted(CappedRecord{v}::from((rec, UnpackedRecordIn{v} {{ {plus_row} }}))) }} else {{ truc_runtime::convert::VecElementConversionResult::Abandonned }}
+    }});
+    let mut o = OpOut::default();
+    o.same_buffer = out.as_ptr() as usize == p0; o.same_capacity = out.capacity() == c0;
+    o.rows = out.iter().map(|r| read_all_{v}(r, !0)).collect();
+    o
+}}"
+            );
+        }
+        if has_serde {
+            let mkd = |ty: &str, idx: &str| format!("<{} as Probe>::make_detached({})", ty, idx);
+            let parts_json = f.iter().enumerate().map(|(i, x)| format!("serde_json::to_string(&{}).unwrap()", mkd(PALETTE[x.pal].expr, &format!("ids[{}]", i)))).collect::<Vec<_>>().join(", ");
+            let parts_bin = f.iter().enumerate().map(|(i, x)| format!("b.extend(bincode::serialize(&{}).unwrap());", mkd(PALETTE[x.pal].expr, &format!("ids[{}]", i)))).collect::<Vec<_>>().join(" ");
+            let _ = writeln!(
+                w,
+                "fn expected_{v}(ids: &[u64]) -> (String, Vec<u8>) {{ let parts: Vec<String> = vec![{parts_json}]; let mut b: Vec<u8> = Vec::new(); {parts_bin} (format!(\"[{{}}]\", parts.join(\",\")), b) }}"
+            );
+        }
+    }
+    // meta
+    let _ = writeln!(w, "fn meta_of<const CAP: usize>() -> Meta {{ Meta {{ module: \"m{}\", history: {:?}, cap: CAP, max_size: MAX_SIZE, has_clone: {}, has_serde: {}, uninit_size_of: std::mem::size_of::<RecordUninitialized<CAP>>(), uninit_align_of: std::mem::align_of::<RecordUninitialized<CAP>>(), variants: vec![", k, spec.text(), has_clone, has_serde);
+    for v in 0..nv {
+        let f = &vf[v];
+        let (minus, plus, reuse): (Vec<usize>, Vec<usize>, usize) = if v > 0 {
+            let prev = &vf[v - 1];
+            let minus: Vec<usize> = prev.iter().enumerate().filter(|(_, p)| !f.iter().any(|x| x.datum_id == p.datum_id)).map(|(i, _)| i).collect();
+            let plus: Vec<usize> = f.iter().enumerate().filter(|(_, x)| !prev.iter().any(|p| p.datum_id == x.datum_id)).map(|(i, _)| i).collect();
+            let mut reuse = 0;
+            for m in &minus {
+                for p in &plus {
+                    let (a, b) = (&prev[*m], &f[*p]);
+                    if a.size > 0 && b.size > 0 && a.offset < b.offset + b.size && b.offset < a.offset + a.size {
+                        reuse += 1;
+                    }
+                }
+            }
+            (minus, plus, reuse)
+        } else {
+            (Vec::new(), (0..f.len()).collect(), 0)
+        };
+        let _ = writeln!(w, "  VariantMeta {{ minus: vec!{:?}, plus: vec!{:?}, byte_reuse_pairs: {}, size_of: std::mem::size_of::<CappedRecord{v}<CAP>>(), align_of: std::mem::align_of::<CappedRecord{v}<CAP>>(), fields: vec![", minus, plus, reuse);
+        for x in f {
+            let p = &PALETTE[x.pal];
+            let _ = writeln!(
+                w,
+                "    FieldMeta {{ name: {:?}, ty: {:?}, datum_id: {}, offset: {}, size: {}, align: {}, uninit: {}, real_size: std::mem::size_of::<{ty}>(), real_align: std::mem::align_of::<{ty}>(), droppable: {}, may_stay_unwritten: {}, zst_drop: {}, tracked: {}, clone_points: <{ty} as Probe>::clone_points(), norm: <{ty} as Probe>::norm }},",
+                x.name, p.expr, x.datum_id, x.offset, x.size, x.align, x.uninit, p.droppable, p.may_stay_unwritten, p.zst_drop, p.tracked, ty = p.expr
+            );
+        }
+        let _ = writeln!(w, "  ] }},");
+    }
+    let _ = writeln!(w, "] }} }}");
+    // Drv impl
+    let arms = |body: &dyn Fn(usize) -> String| -> String { (0..nv).map(|v| body(v)).collect::<Vec<_>>().join("\n") };
+    let _ = writeln!(w, "impl<const CAP: usize> Drv for State<CAP> {{");
+    let _ = writeln!(w, "  fn meta(&self) -> Meta {{ meta_of::<CAP>() }}");
+    let _ = writeln!(w, "  fn variant_in(&self, slot: usize) -> Option<usize> {{ match self.slot_ref(slot) {{ Rec::Empty => None,\n{} }} }}", arms(&|v| format!("    Rec::V{v}(_) => Some({v}),")));
+    let _ = writeln!(w, "  fn record_addr(&self, slot: usize) -> usize {{ match self.slot_ref(slot) {{ Rec::Empty => 0,\n{} }} }}", arms(&|v| format!("    Rec::V{v}(r) => r as *const CappedRecord{v}<CAP> as usize,")));
+    let _ = writeln!(w, "  fn op(&mut self, op: &Op) -> OpOut {{ let mut out = OpOut::default(); match op {{");
+    for (opname, fname) in [("New", "new"), ("NewUninit", "new_uninit"), ("FromUnpacked", "from_unpacked"), ("FromUnpackedUninit", "from_unpacked_uninit")] {
+        let _ = writeln!(w, "    Op::{opname} {{ slot, variant, ids }} => {{ let r = match variant {{\n{}\n      _ => panic!(\"no such variant\") }}; *self.slot_mut(*slot) = r; }}", arms(&|v| format!("      {v} => Rec::V{v}({fname}_{v}::<CAP>(ids)),")));
+    }
+    let _ = writeln!(w, "    Op::ReadAll {{ slot, mask }} => {{ out.obs = match self.slot_ref(*slot) {{ Rec::Empty => Vec::new(),\n{} }}; }}", arms(&|v| format!("      Rec::V{v}(r) => read_all_{v}(r, *mask),")));
+    let _ = writeln!(w, "    Op::Write {{ slot, field, id }} => {{ match self.slot_mut(*slot) {{ Rec::Empty => panic!(\"empty slot\"),\n{} }} }}", arms(&|v| format!("      Rec::V{v}(r) => write_{v}(r, *field, *id),")));
+    let _ = writeln!(w, "    Op::Unpack {{ slot, mask }} => {{ out.obs = match self.take(*slot) {{ Rec::Empty => Vec::new(),\n{} }}; }}", arms(&|v| format!("      Rec::V{v}(r) => unpack_{v}(r, *mask),")));
+    let _ = writeln!(w, "    Op::Drop {{ slot }} => {{ let r = self.take(*slot); drop(r); }}");
+    let _ = writeln!(w, "    Op::Move {{ from, to }} => {{ let r = self.take(*from); *self.slot_mut(*to) = r; }}");
+    let _ = writeln!(
+        w,
+        "    Op::Convert {{ slot, form, ids, mask }} => {{ let (n, o) = match self.take(*slot) {{\n{}\n      _ => panic!(\"cannot convert\") }}; out.obs = o; *self.slot_mut(*slot) = n; }}",
+        (0..nv.saturating_sub(1)).map(|v| format!("      Rec::V{v}(r) => {{ let (n, o) = convert_{}(r, *form, ids, *mask); (Rec::V{}(n), o) }}", v + 1, v + 1)).collect::<Vec<_>>().join("\n")
+    );
+    let _ = writeln!(
+        w,
+        "    Op::VecConvert {{ variant, rows, plus_rows, keep, spare }} => {{ out = match variant {{\n{}\n      _ => panic!(\"no such conversion\") }}; }}",
+        (0..nv.saturating_sub(1)).map(|v| format!("      {v} => vec_convert_{v}::<CAP>(rows, plus_rows, *keep, *spare),")).collect::<Vec<_>>().join("\n")
+    );
+    if has_clone {
+        let _ = writeln!(w, "    Op::Clone {{ from, to }} => {{ let c = match self.slot_ref(*from) {{ Rec::Empty => Rec::Empty,\n{} }}; *self.slot_mut(*to) = c; }}", arms(&|v| format!("      Rec::V{v}(r) => Rec::V{v}(r.clone()),")));
+        let _ = writeln!(w, "    Op::CloneFrom {{ from, to }} => {{ let f = self.take(*from); match (self.slot_mut(*to), &f) {{\n{}\n      _ => panic!(\"clone_from between different variants\") }}; *self.slot_mut(*from) = f; }}", arms(&|v| format!("      (Rec::V{v}(t), Rec::V{v}(s)) => t.clone_from(s),")));
+        let _ = writeln!(
+            w,
+            "    Op::ClonePanic {{ from, to, k, assign }} => {{ let f = self.take(*from); vtypes::CLONE_PANIC_COUNTDOWN.with(|c| c.set(*k as i64));
+      let r = if *assign {{ let t = self.slot_mut(*to); catch_unwind(AssertUnwindSafe(|| {{ match (t, &f) {{\n{}\n        _ => panic!(\"clone_from between different variants\") }}; Rec::Empty }})) }} else {{ catch_unwind(AssertUnwindSafe(|| match &f {{ Rec::Empty => Rec::Empty,\n{} }})) }};
+      vtypes::CLONE_PANIC_COUNTDOWN.with(|c| c.set(-1));
+      match r {{ Ok(c) => {{ drop(c); }} Err(p) => {{ out.panicked = Some(drvlib::panic_text(p)); }} }}
+      *self.slot_mut(*from) = f; }}",
+            arms(&|v| format!("        (Rec::V{v}(t), Rec::V{v}(s)) => t.clone_from(s),")),
+            arms(&|v| format!("        Rec::V{v}(r) => Rec::V{v}(r.clone()),"))
+        );
+    }
+    if has_serde {
+        let _ = writeln!(w, "    Op::SerJson {{ slot }} => {{ out.text = match self.slot_ref(*slot) {{ Rec::Empty => None,\n{} }}; }}", arms(&|v| format!("      Rec::V{v}(r) => Some(serde_json::to_string(r).unwrap()),")));
+        let _ = writeln!(w, "    Op::SerBin {{ slot }} => {{ out.bytes = match self.slot_ref(*slot) {{ Rec::Empty => None,\n{} }}; }}", arms(&|v| format!("      Rec::V{v}(r) => Some(bincode::serialize(r).unwrap()),")));
+        let _ = writeln!(w, "    Op::Expected {{ variant, ids }} => {{ let (t, b) = match variant {{\n{}\n      _ => panic!(\"no such variant\") }}; out.text = Some(t); out.bytes = Some(b); }}", arms(&|v| format!("      {v} => expected_{v}(ids),")));
+        let _ = writeln!(
+            w,
+            "    Op::DeJson {{ slot, variant, text, via_value }} => {{ let r: Result<Rec<CAP>, String> = match variant {{\n{}\n      _ => panic!(\"no such variant\") }}; match r {{ Ok(rec) => {{ *self.slot_mut(*slot) = rec; }} Err(e) => {{ out.err = Some(e); }} }} }}",
+            arms(&|v| format!("      {v} => if *via_value {{ serde_json::from_str::<serde_json::Value>(text).map_err(|e| e.to_string()).and_then(|val| serde_json::from_value::<CappedRecord{v}<CAP>>(val).map_err(|e| e.to_string())).map(Rec::V{v}) }} else {{ serde_json::from_str::<CappedRecord{v}<CAP>>(text).map(Rec::V{v}).map_err(|e| e.to_string()) }},"))
+        );
+        let _ = writeln!(
+            w,
+            "    Op::DeBin {{ slot, variant, bytes }} => {{ let r: Result<Rec<CAP>, String> = match variant {{\n{}\n      _ => panic!(\"no such variant\") }}; match r {{ Ok(rec) => {{ *self.slot_mut(*slot) = rec; }} Err(e) => {{ out.err = Some(e); }} }} }}",
+            arms(&|v| format!("      {v} => bincode::deserialize::<CappedRecord{v}<CAP>>(bytes).map(Rec::V{v}).map_err(|e| e.to_string()),"))
+        );
+    }
+    let _ = writeln!(w, "    _ => panic!(\"operation not supported by this module\") }} out }}");
+    let _ = writeln!(w, "}}");
+    s
+}
+
+fn write_if_changed(path: &std::path::Path, text: &str) {
+    if std::fs::read_to_string(path).map_or(true, |old| old != text) {
+        std::fs::write(path, text).expect("write");
+    }
+}
+
+pub fn mode(args: &Args) {
+    let seed = args.u64("seed", 1);
+    let count = args.u64("count", 8) as usize;
+    let dir = std::path::PathBuf::from(args.str("out-dir", "/verif/work/gendrv"));
+    let caps: Vec<usize> = args.str("caps", "0,8").split(',').map(|c| c.parse().unwrap()).collect();
+    let only_directed = args.u64("only-directed", 0) != 0;
+    std::fs::create_dir_all(dir.join("src")).unwrap();
+    let mut specs = directed_specs();
+    if only_directed {
+        specs.truncate(args.u64("directed-limit", 100) as usize);
+    }
+    let mut rng = Rng::stream(seed, 0xE417);
+    for i in 0..count {
+        specs.push(random_spec(&mut rng, i));
+    }
+    let exclude: Vec<String> = args.str("exclude", "").split(',').filter(|x| !x.is_empty()).map(|x| x.to_owned()).collect();
+    if args.u64("all-fragsets", 0) != 0 {
+        return mode_all_fragsets(&specs, seed, &dir);
+    }
+    let mut manifest = Vec::new();
+    let mut main = String::new();
+    main.push_str("// generated by `layoutmon emit`\n#![allow(clippy::all)]\n#[macro_use]\nextern crate static_assertions;\n");
+    let mut body = String::new();
+    let mut emitted = 0;
+    for (k, spec) in specs.iter().enumerate() {
+        if exclude.iter().any(|m| *m == format!("m{}", k)) {
+            manifest.push(serde_json::json!({"module": format!("m{}", k), "label": spec.label, "history": spec.text(), "status": "excluded: the generated text does not compile"}));
+            continue;
+        }
+        let built = match std::panic::catch_unwind(|| build_spec(spec)) {
+            Ok(Ok(b)) => b,
+            Ok(Err(e)) => {
+                manifest.push(serde_json::json!({"module": format!("m{}", k), "label": spec.label, "history": spec.text(), "status": format!("builder refused: {}", e)}));
+                continue;
+            }
+            Err(_) => {
+                manifest.push(serde_json::json!({"module": format!("m{}", k), "label": spec.label, "history": spec.text(), "status": "builder panicked"}));
+                continue;
+            }
+        };
+        let text = match std::panic::catch_unwind(|| generate(&built.def, &config_for(spec.fragset))) {
+            Ok(t) => t,
+            Err(_) => {
+                manifest.push(serde_json::json!({"module": format!("m{}", k), "label": spec.label, "history": spec.text(), "status": "generate panicked"}));
+                continue;
+            }
+        };
+        write_if_changed(&dir.join("src").join(format!("m{}.rs", k)), &text);
+        write_if_changed(&dir.join("src").join(format!("d{}.rs", k)), &driver_text(k, spec, &built));
+        let _ = writeln!(main, "#[allow(dead_code, unused_imports, unused_variables, clippy::all)]\nmod m{k} {{ include!(\"m{k}.rs\"); }}\nmod d{k};");
+        for c in &caps {
+            let _ = writeln!(body, "    {{ let mut st = d{k}::State::<{{ m{k}::MAX_SIZE + {c} }}>::new(); drvlib::interp::run_module(&mut st, &args, &mut report); }}");
+        }
+        let nfields: usize = built.def.variants().map(|v| v.data_len()).sum();
+        manifest.push(serde_json::json!({"module": format!("m{}", k), "label": spec.label, "history": spec.text(), "fragments": FRAGSETS[spec.fragset],
+            "variants": built.def.variants().count(), "fields_total": nfields, "max_size": built.def.max_size(), "align": built.def.max_type_align(), "status": "emitted", "lines": text.lines().count()}));
+        emitted += 1;
+    }
+    let _ = writeln!(
+        main,
+        "fn main() {{
+    let args = drvlib::RunArgs::parse();
+    let quiet = std::env::args().any(|a| a == \"--quiet-panics\");
+    if quiet {{ std::panic::set_hook(Box::new(|_| {{}})); }}
+    let mut report = drvlib::Report::default();
+{body}    for (k, v) in drvlib::hook_counters() {{ report.count(k, v); }}
+    println!(\"{{}}\", report.to_json(&[(\"hooks\", format!(\"{{}}\", drvlib::HOOKS_ON)), (\"seed\", format!(\"{{}}\", args.seed))]));
+}}"
+    );
+    write_if_changed(&dir.join("src").join("main.rs"), &main);
+    let cargo = format!(
+        "[package]\nname = \"gendrv\"\nversion = \"0.1.0\"\nedition = \"2021\"\n\n[workspace]\n\n[dependencies]\ndrvlib = {{ path = \"/verif/harness/drvlib\" }}\nvtypes = {{ path = \"/verif/harness/vtypes\" }}\ntruc_runtime = {{ path = \"/repo/truc_runtime\" }}\nstatic_assertions = \"1\"\nserde = \"1\"\nserde_json = \"1\"\nbincode = \"1\"\n\n[features]\nhooks = [\"drvlib/hooks\", \"truc_runtime/verif-hooks\"]\n\n[profile.dev]\ndebug = 1\ndebug-assertions = true\noverflow-checks = true\n\n[profile.release]\nopt-level = 3\ndebug = 1\ncodegen-units = 16\n"
+    );
+    write_if_changed(&dir.join("Cargo.toml"), &cargo);
+    std::fs::create_dir_all(dir.join(".cargo")).unwrap();
+    write_if_changed(&dir.join(".cargo").join("config.toml"), "[net]\noffline = true\n");
+    if !dir.join("Cargo.lock").exists() {
+        let _ = std::fs::copy("/verif/harness/Cargo.lock", dir.join("Cargo.lock"));
+    }
+    std::fs::write(dir.join("manifest.json"), serde_json::to_string_pretty(&serde_json::json!({"seed": seed, "modules": manifest, "emitted": emitted, "caps": caps})).unwrap()).unwrap();
+    println!("{}", serde_json::json!({"emitted": emitted, "specs": specs.len(), "dir": dir}));
+}
+
+
+/// Every definition with each of the four fragment selections its field types support: the
+/// generated text only (no driver), for a type-check by the real compiler.
+fn mode_all_fragsets(specs: &[GSpec], seed: u64, dir: &std::path::Path) {
+    std::fs::create_dir_all(dir.join("src")).unwrap();
+    let mut manifest = Vec::new();
+    let mut main = String::from("// generated by `layoutmon emit --all-fragsets`\n#![allow(clippy::all)]\n#[macro_use]\nextern crate static_assertions;\n");
+    let mut k = 0;
+    let mut emitted = 0;
+    for spec in specs {
+        let serde_ok = spec.reqs.iter().all(|r| match r {
+            GReq::Add { pal, .. } => PALETTE[*pal].serde,
+            _ => true,
+        });
+        for fragset in 0..4 {
+            if fragset & 2 != 0 && !serde_ok {
+                continue;
+            }
+            let name = format!("m{}", k);
+            k += 1;
+            let text = std::panic::catch_unwind(|| build_spec(spec).map(|b| generate(&b.def, &config_for(fragset))));
+            match text {
+                Ok(Ok(text)) => {
+                    write_if_changed(&dir.join("src").join(format!("{}.rs", name)), &text);
+                    let _ = writeln!(main, "#[allow(dead_code, unused_imports, unused_variables, clippy::all)]\nmod {name} {{ include!(\"{name}.rs\"); }}");
+                    manifest.push(serde_json::json!({"module": name, "label": spec.label, "history": spec.text(), "fragments": FRAGSETS[fragset], "status": "emitted"}));
+                    emitted += 1;
+                }
+                Ok(Err(e)) => manifest.push(serde_json::json!({"module": name, "label": spec.label, "history": spec.text(), "fragments": FRAGSETS[fragset], "status": format!("builder refused: {}", e)})),
+                Err(_) => manifest.push(serde_json::json!({"module": name, "label": spec.label, "history": spec.text(), "fragments": FRAGSETS[fragset], "status": "builder or generator panicked"})),
+            }
+        }
+    }
+    main.push_str("fn main() {}\n");
+    write_if_changed(&dir.join("src").join("main.rs"), &main);
+    let cargo = "[package]\nname = \"gencheck\"\nversion = \"0.1.0\"\nedition = \"2021\"\n\n[workspace]\n\n[dependencies]\nvtypes = { path = \"/verif/harness/vtypes\" }\ntruc_runtime = { path = \"/repo/truc_runtime\" }\nstatic_assertions = \"1\"\nserde = \"1\"\nserde_json = \"1\"\nbincode = \"1\"\n";
+    write_if_changed(&dir.join("Cargo.toml"), cargo);
+    std::fs::create_dir_all(dir.join(".cargo")).unwrap();
+    write_if_changed(&dir.join(".cargo").join("config.toml"), "[net]\noffline = true\n");
+    if !dir.join("Cargo.lock").exists() {
+        let _ = std::fs::copy("/verif/harness/Cargo.lock", dir.join("Cargo.lock"));
+    }
+    std::fs::write(dir.join("manifest.json"), serde_json::to_string_pretty(&serde_json::json!({"seed": seed, "modules": manifest, "emitted": emitted})).unwrap()).unwrap();
+    println!("{}", serde_json::json!({"emitted": emitted, "dir": dir}));
 }
